@@ -3,6 +3,10 @@
 tier=$1; shift
 cd "$(dirname "$0")/.."
 (cd lean && lake build >/dev/null 2>&1)
+SWEEP_LOG=$(mktemp)
+trap 'rm -f $SWEEP_LOG' EXIT
 for s in "$@"; do
   for p in C01 C02 C03 C04 C05 C06 C07 C08 C09 C10 C11 C12 C13 C14 C15 C16 C17 C18 C19 C20; do echo "$s $p"; done
-done | xargs -P ${PAR:-6} -L 1 bash -c 'out=$(VERIF_SEED=$0 ./check $1 --tier '$tier' 2>&1); code=$?; echo "seed=$0 $1 exit=$code :: $(echo "$out" | grep -v conda | grep -E "VIOLATION|KNOWN|internal|exit [0-9]" | head -3 | tr "\n" " " | cut -c1-300)"'
+done | xargs -P ${PAR:-6} -L 1 bash -c 'out=$(VERIF_SEED=$0 ./check $1 --tier '$tier' 2>&1); code=$?; echo "seed=$0 $1 exit=$code :: $(echo "$out" | grep -v conda | grep -E "VIOLATION|KNOWN|internal|exit [0-9]" | head -3 | tr "\n" " " | cut -c1-300)"' | tee $SWEEP_LOG
+# the sweep itself fails when any check did not exit 0 (so that `vp runs` shows it)
+if grep -q "exit=[1-9]" $SWEEP_LOG; then echo "SWEEP: $(grep -c 'exit=[1-9]' $SWEEP_LOG) run(s) did not exit 0"; exit 1; fi
